@@ -31,7 +31,7 @@ def pcName : Pc → String
   | .dqRequeue _ _ _ _ => "dqRequeue" | .dqCheck2 _ _ _ => "dqCheck2" | .dqSetWfw _ _ _ => "dqSetWfw" | .dqStore _ _ _ => "dqStore" | .dqSetWfp _ _ _ => "dqSetWfp"
   | .dqWakeWith _ _ _ _ => "dqWakeWith" | .dqStore2 _ _ => "dqStore2" | .dqIdle2 _ _ => "dqIdle2" | .dqIdle _ _ => "dqIdle" | .fsTake _ => "fsTake" | .fsTake2 _ => "fsTake2"
   | .pollReady _ => "pollReady" | .pollPending _ => "pollPending" | .sfPoll _ => "sfPoll" | .sfRecv _ => "sfRecv" | .sfUser _ => "sfUser"
-  | .sfFinish _ => "sfFinish" | .sfBlocked _ => "sfBlocked" | .sfDrop _ => "sfDrop" | .sfDropDone _ => "sfDropDone"
+  | .sfFinish _ => "sfFinish" | .sfBlocked _ => "sfBlocked" | .sfDrop _ => "sfDrop" | .sfDropDone _ => "sfDropDone" | .fdDrop _ _ => "fdDrop"
   | .resumeSend _ _ => "resumeSend" | .suspSignal _ _ _ => "suspSignal" | .suspSigDrop _ _ _ => "suspSigDrop"
   | .smSet _ => "smSet" | .dpRead => "dpRead" | .dpLock _ => "dpLock" | .dpHang _ _ => "dpHang" | .dpJoin _ => "dpJoin"
 
@@ -42,7 +42,7 @@ def allPcNames : List String :=
    "sbStealTest", "sbStealIdle", "sbWait", "sbWaiting", "sbDone", "sbDropCv", "sbPrune", "rjDequeue", "rjPending", "rjParkCheck", "rjPark", "rjParked",
    "jobStart", "jobAwait", "jobBodyDone", "jobEnd", "jobSignal", "jobSigDrop", "jobDrop", "jobDropNotify", "ptRecv", "ptRecvd", "ptLockBusy", "ptLockSched", "ptPop",
    "ptUnlockSched", "ptUnlockBusy", "pdDequeue", "pdRequeue", "pdPending", "pdExit", "pfPoll", "pfPollRel", "pfBlocked", "dqCheck", "dqDequeue",
-   "dqRequeue", "dqCheck2", "dqSetWfw", "dqStore", "dqSetWfp", "dqWakeWith", "dqStore2", "dqIdle2", "dqIdle", "fsTake", "pollReady", "pollPending", "sfPoll", "sfRecv", "sfUser", "sfFinish", "sfBlocked", "sfDrop", "sfDropDone", "resumeSend", "suspSignal", "suspSigDrop", "smSet", "dpRead", "dpLock", "dpHang", "dpJoin"]
+   "dqRequeue", "dqCheck2", "dqSetWfw", "dqStore", "dqSetWfp", "dqWakeWith", "dqStore2", "dqIdle2", "dqIdle", "fsTake", "pollReady", "pollPending", "sfPoll", "sfRecv", "sfUser", "sfFinish", "sfBlocked", "sfDrop", "sfDropDone", "fdDrop", "resumeSend", "suspSignal", "suspSigDrop", "smSet", "dpRead", "dpLock", "dpHang", "dpJoin"]
 
 def qstateName : QState → String
   | .idle => "Idle" | .pending => "Pending" | .running => "Running" | .waitingForWake => "WaitingForWake"
